@@ -136,6 +136,11 @@ func wordOrigin(v ssa.Value, container string) (ssa.Value, ssa.Value, bool) {
 	for depth := 0; depth < 6; depth++ {
 		if x, idx, ok := asElemLoad(v); ok {
 			if containerRole(x) == container {
+				if sl, isSl := x.(*ssa.Slice); isSl && sl.Low != nil {
+					if k, isC := constInt64(stripConv(sl.Low)); !isC || k != 0 {
+						return nil, nil, false // index relative to a re-sliced view: not a word index of the container
+					}
+				}
 				return v, idx, true
 			}
 			return nil, nil, false
@@ -250,6 +255,10 @@ func runC13(c *Ctx, w *World, r *Report) {
 						if d := iv.N.Sub(endL); !(d.IsConst() && d.K >= 0) {
 							badE = "the forward scan stops at position " + iv.N.String() + ", before end"
 						}
+						// pos < end visits the word of end-1 only if pos is the FIRST position of its word
+						if cg, ok := fa.CongLin(iv.FirstLin, 64); !ok || cg != 0 || iv.Step%64 != 0 {
+							badE = "the forward scan compares the position counter " + iv.FirstLin.String() + " (step " + fmt.Sprint(iv.Step) + ") with end although it is not the first position of a word (0 mod 64): the trailing partial word is skipped when the start offset exceeds the bits of it that are in range"
+						}
 						return
 					}
 					okN := false
@@ -273,6 +282,10 @@ func runC13(c *Ctx, w *World, r *Report) {
 						bd := fa.BoundsAt(call.Block(), L.Sub(iL))
 						if !(bd.HasLo && bd.Lo <= 0) {
 							badE = "the backward scan stops before reaching position i"
+						}
+						// pos >= i visits the word of i only if pos is the LAST position of its word
+						if cg, ok := fa.CongLin(iv.FirstLin, 64); !ok || cg != 63 || iv.Step%64 != 0 {
+							badE = "the backward scan compares the position counter " + iv.FirstLin.String() + " (step " + fmt.Sprint(iv.Step) + ") with i although it is not the last position of a word (63 mod 64): the leading partial word is skipped"
 						}
 						return
 					}
@@ -451,7 +464,9 @@ func wordIndexMatches(fa *FA, wv ssa.Value, K Lin, container string, depth int) 
 	}
 	b := stripMasks(wv, container)
 	if cont, idx, ok := asElemLoad(b); ok {
-		return containerRole(cont) == container && fa.Lin(idx).Eq(K)
+		// an element of a re-sliced view bm[lo:hi] is element lo+k of bm
+		off, okOff := sliceOffset(fa, cont)
+		return containerRole(cont) == container && okOff && fa.Lin(idx).Add(off).Eq(K)
 	}
 	p, ok := b.(*ssa.Phi)
 	if !ok {
